@@ -1,220 +1,3 @@
-//! vcheck — property-based checks for ellmau/adf-obdd (see /verif/DESIGN.md).
-//!
-//! usage: vcheck <Cxx> <quick|thorough>
-//!        vcheck <Cxx> --replay <file>
-
-mod engine;
-mod formula;
-mod gen;
-mod known;
-mod oracle;
-mod props;
-mod sut;
-
-use engine::*;
-use serde_json::{json, Value};
-use std::collections::BTreeMap;
-use std::path::PathBuf;
-use std::time::Instant;
-
-pub fn verif_root() -> PathBuf {
-    PathBuf::from(std::env::var("VERIF_ROOT").unwrap_or_else(|_| "/verif".into()))
-}
-
-fn write_replay(prop: &str, f: &Failure, seed: u64) -> PathBuf {
-    let dir = verif_root().join("replays").join(prop);
-    let _ = std::fs::create_dir_all(&dir);
-    let body = json!({
-        "property": prop,
-        "part": f.part,
-        "case": f.case,
-        "message": f.message,
-        "seed": seed,
-    });
-    let text = serde_json::to_string_pretty(&body).unwrap();
-    let h = stable_hash(&text);
-    let path = dir.join(format!("{}-{:016x}.json", f.part, h));
-    std::fs::write(&path, text).expect("write replay");
-    path
-}
-
-fn replay_file(spec: &PropSpec, path: &std::path::Path) -> Result<CheckResult, String> {
-    let text = std::fs::read_to_string(path).map_err(|e| format!("{}: {e}", path.display()))?;
-    let v: Value = serde_json::from_str(&text).map_err(|e| format!("{}: {e}", path.display()))?;
-    let part = v["part"].as_str().ok_or("replay file without part")?;
-    let p = spec
-        .parts
-        .iter()
-        .find(|p| p.name() == part)
-        .ok_or_else(|| format!("unknown part {part} for {}", spec.id))?;
-    p.replay(&v["case"])
-}
-
 fn main() {
-    let args: Vec<String> = std::env::args().collect();
-    if args.len() < 3 {
-        eprintln!("usage: vcheck <Cxx> <quick|thorough> | vcheck <Cxx> --replay <file>");
-        std::process::exit(2);
-    }
-    let id = args[1].clone();
-    install_quiet_panic_hook();
-    known::load(&verif_root().join("known-findings.json"));
-
-    if args[2] == "--replay" {
-        let spec = props::spec(&id, Tier::Quick).unwrap_or_else(|| {
-            eprintln!("unknown property {id}");
-            std::process::exit(2)
-        });
-        let path = PathBuf::from(&args[3]);
-        match replay_file(&spec, &path) {
-            Ok(Ok(Outcome::Ok)) => {
-                println!("replay {}: property holds on this case", path.display());
-                std::process::exit(0)
-            }
-            Ok(Ok(Outcome::Known(sig))) => {
-                println!("KNOWN-FINDING: property={id} {}", known::describe(&sig));
-                std::process::exit(0)
-            }
-            Ok(Err(m)) => {
-                println!("replay {}: {m}", path.display());
-                println!("VIOLATION property={id} replay={}", path.display());
-                std::process::exit(1)
-            }
-            Err(e) => {
-                eprintln!("cannot replay: {e}");
-                std::process::exit(2)
-            }
-        }
-    }
-
-    let tier = match args[2].as_str() {
-        "quick" => Tier::Quick,
-        "thorough" => Tier::Thorough,
-        other => {
-            eprintln!("unknown tier {other}");
-            std::process::exit(2)
-        }
-    };
-    let seed: u64 = std::env::var("VERIF_SEED")
-        .ok()
-        .and_then(|s| s.trim().parse::<i128>().ok())
-        .map(|v| v as u64)
-        .unwrap_or(20260926);
-    let threads = std::env::var("VERIF_THREADS")
-        .ok()
-        .and_then(|s| s.parse().ok())
-        .unwrap_or_else(|| {
-            std::thread::available_parallelism()
-                .map(|n| n.get())
-                .unwrap_or(4)
-        });
-    let ctx = Ctx {
-        prop: id.clone(),
-        tier,
-        seed,
-        threads,
-    };
-    let spec = props::spec(&id, tier).unwrap_or_else(|| {
-        eprintln!("unknown property {id}");
-        std::process::exit(2)
-    });
-    let start = Instant::now();
-    let mut total = Stats::default();
-    let mut per_part: BTreeMap<String, Value> = BTreeMap::new();
-    let mut violation: Option<PathBuf> = None;
-
-    // 1. committed regression replays
-    let regress_dir = verif_root().join("regress").join(&id);
-    let mut regress_ok = 0u64;
-    if let Ok(rd) = std::fs::read_dir(&regress_dir) {
-        let mut files: Vec<PathBuf> = rd
-            .filter_map(|e| e.ok().map(|e| e.path()))
-            .filter(|p| p.extension().map(|e| e == "json").unwrap_or(false))
-            .collect();
-        files.sort();
-        for f in files {
-            match replay_file(&spec, &f) {
-                Ok(Ok(Outcome::Ok)) => regress_ok += 1,
-                Ok(Ok(Outcome::Known(sig))) => {
-                    *total.known.entry(sig).or_insert(0) += 1;
-                    regress_ok += 1
-                }
-                Ok(Err(m)) => {
-                    println!("regression replay {} fails: {m}", f.display());
-                    violation = Some(f);
-                    break;
-                }
-                Err(e) => {
-                    eprintln!("cannot replay {}: {e}", f.display());
-                    std::process::exit(2);
-                }
-            }
-        }
-    }
-    total.count("regression_replays_passed", regress_ok);
-
-    // 2. generated search
-    if violation.is_none() {
-        for part in &spec.parts {
-            let mut st = Stats::default();
-            let t0 = Instant::now();
-            let fail = part.run(&ctx, &mut st);
-            per_part.insert(
-                part.name().to_string(),
-                json!({
-                    "evaluations": st.evaluations,
-                    "distinct_nontrivial": st.nontrivial.len(),
-                    "wall_s": t0.elapsed().as_secs_f64(),
-                }),
-            );
-            total.merge(&st);
-            if let Some(f) = fail {
-                let path = write_replay(&id, &f, seed);
-                println!(
-                    "property {id} part {}: {}\n  shrunk case: {}",
-                    f.part,
-                    f.message,
-                    serde_json::to_string(&f.case).unwrap_or_default()
-                );
-                violation = Some(path);
-                break;
-            }
-        }
-    }
-
-    let wall = start.elapsed().as_secs_f64();
-    let ev = evidence_json(
-        &spec,
-        &ctx,
-        &total,
-        &per_part,
-        wall,
-        if violation.is_some() { 1 } else { 0 },
-        None,
-    );
-    let evdir = verif_root().join("evidence");
-    let _ = std::fs::create_dir_all(&evdir);
-    std::fs::write(
-        evdir.join(format!("{id}.json")),
-        serde_json::to_string_pretty(&ev).unwrap(),
-    )
-    .expect("write evidence");
-
-    for (sig, cnt) in &total.known {
-        println!(
-            "KNOWN-FINDING: property={id} {} (hit {cnt}x, excluded by construction)",
-            known::describe(sig)
-        );
-    }
-    println!(
-        "{id} {}: evaluations={} distinct_nontrivial={} wall={:.1}s seed={seed}",
-        tier.name(),
-        total.evaluations,
-        total.nontrivial.len(),
-        wall
-    );
-    if let Some(p) = violation {
-        println!("VIOLATION property={id} replay={}", p.display());
-        std::process::exit(1);
-    }
+    vcheck::main_entry()
 }
